@@ -482,7 +482,7 @@ for _lay in LAYOUT_TREES:
             continue  # the whole <= seek with a symbolic probe exceeds 20 GB on multi-block layouts: decided as c02_lesplit_*
         _t = "quick" if ((_lay in ("l2a", "l0b") and _op != "le") or (_lay == "e2" and _op == "le")) else "thorough"
         G("c02_seek", _lay, ["%s:sym" % _op], ["C02", "C16"] + (["C10"] if _lay.startswith("l0") else []), tier={"C02": _t, "*": "thorough"},
-          mem="heavy" if (_op == "le" and LAYOUTS[_lay][2] > 1) else "light", timeout=3600 if _op == "le" else 1500)
+          mem="heavy" if (_op == "le" and LAYOUTS[_lay][2] >= 1) else "light", timeout=3600 if _op == "le" else 1500)
 G("c02_seek", "l2a", ["first", "next", "reset", "ge:sym"], ["C02", "C03"], tier="thorough")
 
 # byte-string classes: keys of length 0..=2, probe 0..=3 (prefix / extension / empty / longer)
